@@ -231,7 +231,8 @@ class SystemClock(Clock, metaclass=MetaSystemClock):
                         if isinstance(delta, (int, float))\
                         and not isinstance(delta, bool):
                             time = sched_time + delta
-                            cls._sched_add(time, task)
+                            if time != float('inf'):  # Never, as in sched.
+                                cls._sched_add(time, task)
                     except stm.StopStream:
                         pass
                     except Exception:
@@ -319,7 +320,8 @@ class Scheduler():
             _libsc3.main._update_logical_time(self._seconds)
             _libsc3.main._in_awake_call = True
             delta = item.__awake__(self._clock)
-            if isinstance(delta, (int, float)) and not isinstance(delta, bool):
+            if isinstance(delta, (int, float)) and not isinstance(delta, bool)\
+            and delta != float('inf'):  # Never, as in sched.
                 self._sched_add(delta, item)
         except stm.StopStream:
             pass
@@ -844,7 +846,8 @@ class TempoClock(Clock, metaclass=MetaTempoClock):
                         if isinstance(delta, (int, float))\
                         and not isinstance(delta, bool):
                             time = self._beats + delta
-                            self._sched_add(time, task)
+                            if time != float('inf'):  # Never, as in sched.
+                                self._sched_add(time, task)
                     except stm.StopStream:
                         pass
                     except Exception:
